@@ -114,6 +114,8 @@ class Hooks:
                         "compute_matrices is evaluated at the stamp M[mi] itself", concretize=w.concretize)
             c.prove("loop.measurement.index_advance", mi1 == mi0 + (1 if processed else 0),
                     "measurement cursor advances by exactly one iff a stamp was processed", concretize=w.concretize)
+            if getattr(self, "kalman", None) is not None:
+                sched.kalman_threading(c, self.kalman)
             for s in self.sensors:
                 nm = s.__class__.__name__
                 td, od = sched.innovation_logs(L, self.roles)
@@ -157,6 +159,8 @@ class Hooks:
                 del L[dn][key][:]
         for s in self.sensors:
             s.calls = []
+        if getattr(self, "kalman", None) is not None:
+            del self.kalman.calls[:]
         self.pre = (ii, mi, xi, self._time(ii), tr_empty, tr_last)
         out = {r["mi"]: ZSym(mi), r["xi"]: ZSym(xi)}
         for k in r["stored"]:
@@ -208,7 +212,8 @@ def scenario(py, code, mode, results):
         a.events.append("correct_increments")
         return inc
     ns = dict(F.__dict__)
-    ns.update(__pvx=hooks, np=sched.ZNp(w), pd=OPAQUE, kalman=OPAQUE, transform=OPAQUE, earth=OPAQUE, Rotation=OPAQUE,
+    hooks.kalman = sched.KalmanStub()
+    ns.update(__pvx=hooks, np=sched.ZNp(w), pd=OPAQUE, kalman=hooks.kalman, transform=OPAQUE, earth=OPAQUE, Rotation=OPAQUE,
               util=cap, strapdown=StrapNS, inertial_sensor=InertialNS, InsErrorModel=lambda wa=True: OPAQUE,
               _correct_increments=correct_increments, _initialize_covariance=lambda *a, **k: OPAQUE,
               _compute_error_propagation_matrices=lambda *a, **k: (OPAQUE, OPAQUE), _compute_sd=lambda *a, **k: (OPAQUE, OPAQUE, OPAQUE),
